@@ -37,6 +37,7 @@ func init() {
 		Stub:           []string{"OS scheduler (yield-point scheduler in the deterministic part; the Go scheduler itself in the race part)", "socket listeners"},
 		Assumptions:    []string{"interleavings are explored at critical-section boundaries (yield sites listed in DESIGN.md appendix A); preemption inside a critical section is not a distinct behaviour under the single-mutex discipline", "data races are decided only by the non-deterministic auxiliary race-detector mode"},
 		RequiredProbes: []string{"c13.interfere.impact.prelock", "c13.interfere.migrate.prelock", "c13.interfere.stats.postlock", "c13.interfere.sync.between", "c13.interfere.srvauth.between", "c13.interfere.auth.preforward", "c13.ban-in-gap", "c13.rotate-in-gap"},
+		RequiredSites:  []string{"impact.listed", "impact.prelock", "srvauth.between", "srvauth.prenet", "sync.between", "stats.postlock", "auth.preforward", "order.prelock", "archive.file", "archive.pubkey", "migrate.checked", "migrate.prelock", "migrate.before-shift"},
 	})
 }
 
